@@ -484,6 +484,72 @@ Proof.
     + split; [repeat split; assumption|]. destruct (mtsig m) as [[kn rd]|]; [contradiction|exact Logic.I].
 Qed.
 
+Theorem update_roundtrip_pad_lemma pad m z ms rp w :
+  WfUpd o m z -> wf_tsig m -> to_wire m o ms rp false pad = Ok w ->
+  exists m', from_wire w o po0 = Ok m' /\ msg_equiv_p pad m' m.
+Proof.
+  intros [WU WZ WN WT WC WA WUu WD WO] WTS H.
+  set (zc := rclass z) in *.
+  assert (WQ : Forall (fun rs => name_wf o (rname rs)) (mq m)) by (rewrite WZ; constructor; [exact WN|constructor]).
+  destruct (layout_final_p o OO (wf_urrset o zc) (fun sec l ds => Forall2 (udesc zc sec) l ds)
+                         (fun sec (l : list rrset) ds l2 => l2 = map (urrset zc sec) ds)
+                         (fun sec l r r' file => add_rrsets_chain_u o OO zc sec l r r' file) pad m ms rp w WQ WA WUu WD WO WTS H)
+    as (qs & ds1 & ds2 & ds3 & owner' & wb & body & e0 & e1 & e2 & e3 & e4 & t' & Ew & Hid & Hfl & L0 & L1 & L2 & L3 &
+        QC & C1 & C2 & C3 & QD & SD1 & SD2 & SD3 & HO0 & HT & TE & _ & _).
+  assert (X : exists oo, opt_rel pad oo (mopt m) /\ opt_count oo = opt_count (mopt m) /\
+              match oo with
+              | Some o' => (exists abs', RRreads o o w e3 abs' owner' tOPT (opayload o') (oflags o') [FRest] [PB wb] e4) /\
+                           ci_equal owner' [[]] /\ opts_wire (oopts o') = Ok wb /\ opts_ok (oopts o')
+              | None => e4 = e3
+              end).
+  { destruct (mopt m) as [o1|].
+    - destruct HO0 as (sz & HO0). exists (Some (pad_opt o1 pad sz)). split; [exists sz; reflexivity|]. split; [reflexivity|exact HO0].
+    - exists None. split; [reflexivity|]. split; [reflexivity|exact HO0]. }
+  destruct X as (oo & OR & OC & HO). rewrite <- OC in *. clear HO0.
+  rewrite WZ in QD. inversion QD as [|? q ? qs' (Q1 & Q2 & Q3 & Q4) QD']; subst. inversion QD'; subst.
+  destruct (udesc_lists zc 1 ltac:(lia) _ _ SD1) as (G1 & E1).
+  destruct (udesc_lists zc 2 ltac:(lia) _ _ SD2) as (G2 & E2).
+  destruct (udesc_lists zc 3 ltac:(lia) _ _ SD3) as (G3 & E3).
+  exists (read_result_u zc (mid m) (mflags m) q ds1 ds2 ds3 oo t').
+  split.
+  - change (zlen [q]) with 1 in *.
+    eapply (read_structure_u o zc); try eassumption.
+    + rewrite Q3. exact WT.
+    + rewrite Q4. exact WC.
+  - unfold read_result_u.
+    set (m0 := mkMsg (mid m) (mflags m) [] [] [] [] None None).
+    set (m1 := add_q m0 q).
+    destruct (fold_apply_u_keeps zc 1 ds1 ltac:(lia) m1) as (A1 & B1 & C1' & D1 & F1 & S1 & O1).
+    set (m2 := fold_left (apply_u zc 1) ds1 m1) in *.
+    destruct (fold_apply_u_keeps zc 2 ds2 ltac:(lia) m2) as (A2 & B2 & C2' & D2 & F2 & S2 & O2).
+    set (m3 := fold_left (apply_u zc 2) ds2 m2) in *.
+    destruct (fold_apply_u_keeps zc 3 ds3 ltac:(lia) m3) as (A3 & B3 & C3' & D3 & F3 & S3 & O3).
+    set (m4 := fold_left (apply_u zc 3) ds3 m3) in *.
+    assert (X : mid m4 = mid m /\ mflags m4 = mflags m /\ mq m4 = [mkRR (q_name q) (q_cl q) (q_ty q) 0 None 0 []] /\
+                man m4 = map (urrset zc 1) ds1 /\ mau m4 = map (urrset zc 2) ds2 /\ mad m4 = map (urrset zc 3) ds3 /\
+                mopt m4 = None /\ mtsig m4 = None).
+    { rewrite D3, D2, D1, F3, F2, F1, B3, B2, B1, A3, A2, A1, C3', C2', C1'.
+      pose proof (O3 1 ltac:(lia) ltac:(lia)) as P1. pose proof (O3 2 ltac:(lia) ltac:(lia)) as P2.
+      pose proof (O2 1 ltac:(lia) ltac:(lia)) as P3.
+      unfold get_sec in *. cbn [Z.eqb Pos.eqb] in *.
+      rewrite P1, P3, S1. rewrite P2, S2. rewrite S3.
+      pose proof (O2 3 ltac:(lia) ltac:(lia)) as P4. pose proof (O1 3 ltac:(lia) ltac:(lia)) as P5.
+      pose proof (O1 2 ltac:(lia) ltac:(lia)) as P6. unfold get_sec in *. cbn [Z.eqb Pos.eqb] in *.
+      rewrite P4, P5, P6. cbn [man mau mad m1 m0 add_q set_sec mq Z.eqb app]. repeat split; reflexivity. }
+    destruct X as (X1 & X2 & X3 & X4 & X5 & X6 & X7 & X8).
+    assert (QE : Forall2 q_equiv [mkRR (q_name q) (q_cl q) (q_ty q) 0 None 0 []] [z]).
+    { constructor; [|constructor]. unfold q_equiv. cbn [rname rclass rtype rcovers rdeleting rttl rrds]. auto 10. }
+    unfold msg_equiv_p.
+    destruct oo as [o'|]; destruct t' as [[kn' rd']|];
+      cbn [mid mflags mq man mau mad mopt mtsig set_opt set_tsig tsig_equiv];
+      rewrite ?X1, ?X2, ?X3, ?X4, ?X5, ?X6, ?X7, ?X8, ?WZ.
+    + repeat (split; [first [assumption|reflexivity|exact OR]|]). destruct (mtsig m) as [[kn rd]|]; [exact TE|contradiction].
+    + repeat (split; [first [assumption|reflexivity|exact OR]|]). destruct (mtsig m) as [[kn rd]|]; [contradiction|exact Logic.I].
+    + repeat (split; [first [assumption|reflexivity|exact OR]|]). destruct (mtsig m) as [[kn rd]|]; [exact TE|contradiction].
+    + repeat (split; [first [assumption|reflexivity|exact OR]|]). destruct (mtsig m) as [[kn rd]|]; [contradiction|exact Logic.I].
+Qed.
+
+
 Theorem update_roundtrip_lemma m z ms rp w :
   WfUpd o m z -> wf_tsig m -> to_wire m o ms rp false 0 = Ok w ->
   exists m', from_wire w o po0 = Ok m' /\ msg_equiv_t m' m.
